@@ -203,7 +203,13 @@ func (s *Session) RunBlock(p *BlockPlan) (*BlockResult, error) {
 			return nil, fmt.Errorf("process: %w", err)
 		}
 		if pr.Status != abci.ResponseProcessProposal_ACCEPT {
-			return nil, fmt.Errorf("honest proposal rejected at height %d", h)
+			// a block made of the honest execution-block message and transactions that are admissible by the rules (signed by the
+			// current relayer proposer, ...) is refused by the application itself: no specification action explains that
+			err := fmt.Errorf("honest proposal rejected at height %d", h)
+			s.emit(s.LockW, "halt", Ev{"h": h, "err": err.Error()})
+			s.emit(s.RelW, "halt", Ev{"h": h, "err": err.Error()})
+			s.emit(s.BridgeW, "halt", Ev{"h": h, "err": err.Error()})
+			return nil, &HaltError{Height: h, Err: err}
 		}
 	}
 	votesAbs := []Ev{}
